@@ -485,6 +485,153 @@ pub fn space_w(full: bool, f: &mut dyn FnMut(u64, &[u8])) -> u64 {
     }
 }
 
+// ---------------------------------------------------------------------------------------------
+// M: memory walkers (DESIGN §2.3): programs that move far in either direction with dynamic
+// (loop-carried) moves, scan over runs laid down before, and revisit cells after several
+// reallocations.
+
+fn rep(out: &mut Vec<u8>, c: u8, n: usize) {
+    for _ in 0..n {
+        out.push(c);
+    }
+}
+
+/// Walk `k` hops of `s` cells in direction `dir` (b'>' or b'<') carrying the counter along.
+pub fn walk(out: &mut Vec<u8>, k: usize, s: usize, dir: u8) {
+    let back = if dir == b'>' { b'<' } else { b'>' };
+    rep(out, b'+', k);
+    out.extend_from_slice(b"[-[-");
+    rep(out, dir, s);
+    out.push(b'+');
+    rep(out, back, s);
+    out.push(b']');
+    rep(out, dir, s);
+    out.push(b']');
+}
+
+pub fn space_m(full: bool) -> Vec<Vec<u8>> {
+    let mut v = Vec::new();
+    let hops: Vec<(usize, usize)> = {
+        let mut h = Vec::new();
+        for n in 1..=12 {
+            h.push((n, 1));
+        }
+        for n in [13, 17, 25, 33, 40] {
+            h.push((n, 1));
+        }
+        h.extend_from_slice(&[(5, 20), (10, 100), (7, 1)]);
+        if full {
+            for n in 14..=40 {
+                h.push((n, 1));
+            }
+            h.extend_from_slice(&[(50, 100), (25, 200), (3, 3000), (40, 25)]);
+        }
+        h
+    };
+    for &(k, s) in &hops {
+        for dir in [b'>', b'<'] {
+            let back = if dir == b'>' { b'<' } else { b'>' };
+            // 1. walk, write, print
+            let mut p = Vec::new();
+            walk(&mut p, k, s, dir);
+            p.extend_from_slice(b"+++.");
+            v.push(p);
+            // 2. mark next to the origin, walk away, write, walk back, print the mark and the far cell again
+            let mut p = Vec::new();
+            p.push(back);
+            p.extend_from_slice(b"+++++");
+            p.push(dir);
+            walk(&mut p, k, s, dir);
+            p.extend_from_slice(b"++.");
+            p.push(dir);
+            walk(&mut p, k, s, back);
+            p.push(back);
+            p.push(back);
+            p.push(b'.');
+            p.push(dir);
+            walk(&mut p, k, s, dir);
+            p.push(b'.');
+            v.push(p);
+        }
+    }
+    // 3. scans over runs laid down before (both directions), with a zero barrier next to the counter
+    let runs: Vec<usize> = if full { vec![1, 2, 3, 5, 8, 13, 21, 40, 100, 400, 1000] } else { vec![1, 2, 3, 5, 8, 13, 40, 100] };
+    for &k in &runs {
+        for dir in [b'>', b'<'] {
+            let back = if dir == b'>' { b'<' } else { b'>' };
+            let mut p = Vec::new();
+            rep(&mut p, b'+', k.min(255));
+            if k > 255 {
+                // counter = 4 * 250 style products are not needed: use nested loops for large runs
+                p.clear();
+                p.push(back);
+                rep(&mut p, b'+', k / 100);
+                p.extend_from_slice(b"[-");
+                p.push(dir);
+                rep(&mut p, b'+', 100);
+                p.push(back);
+                p.push(b']');
+                p.push(dir);
+            }
+            p.extend_from_slice(b"[-");
+            p.push(dir);
+            p.push(dir);
+            p.push(b'[');
+            p.push(dir);
+            p.extend_from_slice(b"]+[");
+            p.push(back);
+            p.push(b']');
+            p.push(back);
+            p.push(b']');
+            p.push(dir);
+            p.push(dir);
+            p.push(b'[');
+            p.push(dir);
+            p.push(b']');
+            p.push(back);
+            p.extend_from_slice(b".[");
+            p.push(back);
+            p.push(b']');
+            p.push(dir);
+            p.push(b'.');
+            v.push(p);
+        }
+    }
+    // 4. zig-zag: alternate far walks so that the tape is reallocated several times in both
+    // directions, leaving marks that are revisited at the end
+    for &(k, s) in if full { &[(3usize, 7usize), (4, 50), (6, 400)][..] } else { &[(3usize, 7usize), (4, 50)][..] } {
+        let mut p = Vec::new();
+        p.extend_from_slice(b"<+>");
+        let mut mult = 1;
+        for round in 0..4 {
+            let dir = if round % 2 == 0 { b'>' } else { b'<' };
+            walk(&mut p, k * mult, s, dir);
+            // leave a mark two cells further and come back one
+            p.push(dir);
+            p.push(dir);
+            rep(&mut p, b'+', round + 2);
+            p.push(b'.');
+            p.push(if dir == b'>' { b'<' } else { b'>' });
+            mult += 1;
+        }
+        // pointer is now k*s*(1-2+3-4) - ... from the origin; walk home by undoing the rounds in reverse
+        for round in (0..4).rev() {
+            let dir = if round % 2 == 0 { b'<' } else { b'>' };
+            let fwd = if round % 2 == 0 { b'>' } else { b'<' };
+            // undo "come back one" and "two further": go to the mark, print it, return to the walk end
+            p.push(fwd);
+            p.push(b'.');
+            p.push(dir);
+            p.push(dir);
+            mult -= 1;
+            walk(&mut p, k * mult, s, dir);
+        }
+        p.extend_from_slice(b"<.");
+        v.push(p);
+    }
+    v
+}
+
 /// K: the repository's own corpus, copied into /verif/corpus (name \t program per line).
 pub fn space_k() -> Vec<(String, Vec<u8>)> {
     let path = format!("{}/corpus/k_tests.txt", crate::verif_dir());
